@@ -30,10 +30,11 @@ CHECKS = {
 
 CHECKS["C19"] = {
     "text": "Proof (Verus, unbounded) over the real SeqRange/SeqGroup/SimpleSequence/CacheSequence/SequenceDbManager::{next_id,next_range}: the group always "
-            "hands out its least available id and removes exactly it; apply_range keeps every available id and the least-first order; the replicated high-water mark "
+            "hands out its least available id and removes exactly it; apply_range (no call-site assumptions: any buffer occupancy, a range below the ones held is dropped) keeps every available id and the least-first order; the replicated high-water mark "
             "equals end() exactly when emitted and set_valid_last_id never lowers it; per-key counters advance by exactly the step. Spec-level lemmas turn these "
-            "postconditions into 'strictly increasing, never twice' over every call sequence.",
-    "note": "apply_range's preconditions (increasing disjoint ranges from Raft, at most one buffer non-empty) are assumed of the actor call sites; cross-node "
+            "postconditions into 'strictly increasing, never twice' over every call sequence. SequenceManager::{do_next_id, handle_result} are under contract too: the id answered "
+            "to a request is the id taken out of the group. A bounded native stand-in drives the real SequenceManager message flow (outstanding refills, out-of-order replies).",
+    "note": "ranges returned by NextRange are disjoint (Raft linearisability + SequenceDbManager::next_range, the latter proved); the actix message flow of the manager is only bounded; cross-node "
             "concurrency = Raft linearisability, assumed; HashMap::get_mut contract and Arc<String> key model are assumed (shims/std_extra.rs).",
 }
 
